@@ -181,6 +181,8 @@ def setNumbers (n : Nat) (sd : List Row) : List Row :=
 
 /-- `checkSheet` -/
 def checkSheet (rows : List Row) : Res (List Row) :=
+  -- row numbers are bounded first (negative numbers, also rejected there, are not representable here)
+  if rows.any (fun r => decide (r.r > Facts.TotalRows)) then .err else
   let (m, kept, z) := csScan 0 rows
   let sd := place (List.replicate m emptyRow) kept
   (r0Rows z sd).map (setNumbers (lastPlaced kept))
@@ -219,7 +221,16 @@ def placeCells : List Cell → List Cell → Res (List Cell)
       if 1 ≤ col ∧ col ≤ (tgt.length : Int) then placeCells (tgt.set (col.toNat - 1) c) cs
       else .panic
 
-/-- second half of `checkRow` over one row: re-densify if the last cell's column exceeds the count -/
+/-- "size the row by its greatest column": the maximum of `lastCol` and every cell's column -/
+def maxCol : Int → List Cell → Res Int
+  | m, [] => .ok m
+  | m, c :: cs =>
+    match cellNameToCoordinates c.ref with
+    | .error _ => .err
+    | .ok (col, _) => maxCol (if col > m then col else m) cs
+
+/-- second half of `checkRow` over one row: re-densify if the last cell's column exceeds the count;
+the new row has as many slots as the greatest column among the cells -/
 def rebuild (rowNo : Nat) (cells : List Cell) : Res (List Cell) :=
   match cells.getLast? with
   | none => .ok cells
@@ -228,9 +239,10 @@ def rebuild (rowNo : Nat) (cells : List Cell) : Res (List Cell) :=
     | .error _ => .err
     | .ok (lastCol, _) =>
       if (cells.length : Int) < lastCol then
-        match targets rowNo lastCol.toNat with
-        | none => .err
-        | some tgt => placeCells tgt cells
+        (maxCol lastCol cells).bind fun lastCol =>
+          match targets rowNo lastCol.toNat with
+          | none => .err
+          | some tgt => placeCells tgt cells
       else .ok cells
 
 def checkRowOne (rowNo : Nat) (cells : List Cell) : Res (List Cell) :=
